@@ -54,8 +54,11 @@ pub fn desc2(n: u8) -> TargetDescription {
     d
 }
 
+/// Paths are built through `From<&str>` (the idiomatic `.into()`), which stores
+/// the string as given; parsing goes through `VirtualTargetPath::new`. The two
+/// must agree for every string, which the round-trip checks then observe.
 pub fn vpath(p: &str) -> VirtualTargetPath {
-    VirtualTargetPath::new(p.to_string()).unwrap()
+    VirtualTargetPath::from(p)
 }
 
 pub type Artifacts = BTreeMap<VirtualTargetPath, TargetDescription>;
